@@ -580,7 +580,7 @@ fn coherence(root: &Path, id: &str, a: &Abs) -> Coherence {
     Coherence { truth_valid: a.truth.iter().enumerate().all(|(i, e)| e.seq == i as u64), full, full_stale_prefix: pre, mr: classify_derived_jsonl(root, id, a, Target::Mr), comp: classify_derived_jsonl(root, id, a, Target::Comp), compidx: classify_compidx(root, id, a), ord: classify_ord(root, id, a) }
 }
 /// executable class of a fast/truth disagreement
-fn classify_violation(c: &Coherence, fast: &Ans, q: &Q) -> String {
+fn classify_violation(c: &Coherence, fast: &Ans, truth: &Ans, q: &Q) -> String {
     let qn = match q {
         Q::Replay => "replay",
         Q::CutPoints { .. } => "cut_points",
@@ -606,6 +606,13 @@ fn classify_violation(c: &Coherence, fast: &Ans, q: &Q) -> String {
     if c.full == FileState::WellFormedDiffers && c.full_stale_prefix {
         return "full_sidecar_wellformed_stale_prefix".into();
     }
+    if let (Q::Compile { .. }, Ans::Ok(f), Ans::Ok(t)) = (q, fast, truth) {
+        // C08's finding (builder compile): with the full sidecar unusable the compile input takes the head seq from
+        // the last line of the messages+runs sidecar, so from_seq stops at the newest message / run-ended frame
+        if c.full != FileState::Exact && f["from_seq"].as_u64() < t["from_seq"].as_u64() && f["from_message_id"] == t["from_message_id"] {
+            return "compile_head_seq_taken_from_mr_sidecar".into();
+        }
+    }
     if c.mr == FileState::WellFormedDiffers || c.comp == FileState::WellFormedDiffers {
         return "derived_sidecar_wellformed_not_projection".into();
     }
@@ -614,6 +621,11 @@ fn classify_violation(c: &Coherence, fast: &Ans, q: &Q) -> String {
     }
     if c.compidx == FileState::WellFormedDiffers || c.ord == FileState::WellFormedDiffers {
         return "derived_index_wellformed_not_projection".into();
+    }
+    if (c.comp == FileState::Absent || c.mr == FileState::Absent) && !matches!(c.full, FileState::Exact | FileState::Absent) && matches!(q, Q::CutPoints { .. } | Q::CompactionStatus { .. } | Q::Compile { .. }) {
+        // ensure_*_sidecar_best_effort_v1 builds a missing derived sidecar from whatever the full sidecar holds
+        // (line headers only: no seq contiguity, no comparison with the log)
+        return "derived_sidecar_rebuilt_from_unvalidated_full_sidecar".into();
     }
     format!("cache_changes_answer:{qn}")
 }
@@ -1171,7 +1183,7 @@ fn main() {
             };
             if bad {
                 let which = if matches!(truth, Ans::Hang | Ans::Panic) && !matches!(fast, Ans::Hang | Ans::Panic) { truth } else { fast };
-                let class = classify_violation(&out.coh, which, q);
+                let class = classify_violation(&out.coh, which, truth, q);
                 *seen_classes.entry(class.clone()).or_insert(0) += 1;
                 let what = format!("{:?}: caches as found => {}   caches removed => {}", q, short(&fast.json()), short(&truth.json()));
                 // every model case of this query is flagged (so a model disagreement there is explained);
@@ -1227,7 +1239,7 @@ fn shrink_case(case: &Case, q: &Q, class: &str) -> Value {
                 (Ans::Err(x), Ans::Err(y)) => x != y,
                 _ => true,
             };
-            bad && classify_violation(&out.coh, f, qq) == cls
+            bad && classify_violation(&out.coh, f, t, qq) == cls
         })
     });
     case_json(&Case { ops, queries: vec![q.clone()], long: false })
